@@ -81,6 +81,10 @@ UNW_MAYPANIC = mk(exit="unw", origin="maypanic")
 
 FN_TRAITS = ("core::ops::function::FnOnce", "core::ops::function::FnMut", "core::ops::function::Fn")
 
+def _envsig(env):
+    return tuple(sorted((n, ti, _envsig(e2) if e2 else ()) for n, (ti, e2) in env.items()))
+
+
 PathResult = namedtuple("PathResult", "exit tag vec pcalls notes events blocks origin")
 
 
@@ -100,9 +104,13 @@ class Engine:
         self.glue_memo = {}
 
     # ------------------------------------------------------------------ summaries
-    def summary(self, key):
-        if key in self.memo:
-            return self.memo[key]
+    def summary(self, key, env=None):
+        """Effects of local body `key`. `env` (type-parameter name -> (type index, env)) specialises a generic helper for a call
+        site that passes a handle-holding type for a parameter (`with_transient::<Arc<T>, _, _>(owner, f)`): inside the helper
+        a value of that parameter type then carries the handle's tokens and drop glue."""
+        mkey = key if not env else (key, _envsig(env))
+        if mkey in self.memo:
+            return self.memo[mkey]
         if key in self.stack:
             self.recursion.add(key)
             return [mk(notes={"RECURSION:" + key})]
@@ -110,13 +118,45 @@ class Engine:
         if body is None:
             return [mk(notes={"NO-BODY:" + key}), mk(exit="unw", notes={"NO-BODY:" + key})]
         self.stack.append(key)
+        old = getattr(self.f, "_dyn_env", None)
+        self.f._dyn_env = env or {}
         try:
             prs = self.walk(body, record=False)
         finally:
+            self.f._dyn_env = old
             self.stack.pop()
         effs = dedup([mk(p.exit, p.tag, p.vec, p.pcalls, p.notes, (), p.origin) for p in prs])
-        self.memo[key] = effs
+        self.memo[mkey] = effs
         return effs
+
+    def local_paths(self, key, args):
+        """Recorded paths of a local callee specialised like `local_call_effects` (used to look at what a helper does at the
+        moment it calls a caller-supplied closure)."""
+        gm = self.generic_map(key, args)
+        env = {}
+        cur = getattr(self.f, "_dyn_env", None) or {}
+        for n, a in gm.items():
+            if "t" in a and self.f.tokens(a["t"])[0] > 0:
+                env[n] = (a["t"], dict(cur))
+        ck = ("paths", key, _envsig(env))
+        if ck not in self.memo:
+            old = getattr(self.f, "_dyn_env", None)
+            self.f._dyn_env = env
+            try:
+                self.memo[ck] = self.walk(self.f.body(key), record=True)
+            finally:
+                self.f._dyn_env = old
+        return self.memo[ck]
+
+    def local_call_effects(self, key, args):
+        """Summary of a local callee instantiated for a call site's generic arguments (specialised when an argument holds handles)."""
+        gm = self.generic_map(key, args)
+        env = {}
+        cur = getattr(self.f, "_dyn_env", None) or {}
+        for n, a in gm.items():
+            if "t" in a and self.f.tokens(a["t"])[0] > 0:
+                env[n] = (a["t"], dict(cur))
+        return self.instantiate(self.summary(key, env or None), gm)
 
     def toplevel(self, key):
         """Paths of a body with callee summaries composed and leftover parameter calls read as user callbacks."""
@@ -301,7 +341,8 @@ class Engine:
     def drop_effects(self, ty_idx, tag, env=None, depth=0):
         """Effects of running the destructor of a value of type ty_idx (tokens it holds are retired)."""
         f = self.f
-        key = (ty_idx, tag, id(env) if env else None)
+        dyn = getattr(f, "_dyn_env", None)
+        key = (ty_idx, tag, id(env) if env else None, _envsig(dyn) if dyn else None)
         if env is None and key in self.glue_memo:
             return self.glue_memo[key]
         pieces = self._glue(ty_idx, tag, env, depth)
@@ -332,6 +373,10 @@ class Engine:
             if env and t["name"] in env:
                 ti, e2 = env[t["name"]]
                 return self._glue(ti, None, e2, depth + 1)
+            dyn = getattr(f, "_dyn_env", None)
+            if dyn and t["name"] in dyn:
+                ti, e2 = dyn[t["name"]]
+                return self._glue(ti, None, e2 or {}, depth + 1)
             return [[mk(v=vec(user=1)), mk(exit="unw", v=vec(user=1), origin="user")]]
         if k in ("alias", "dyn"):
             return [[mk(v=vec(user=1)), mk(exit="unw", v=vec(user=1), origin="user")]]
@@ -736,7 +781,7 @@ class Engine:
         elif t["callee_local"] and not isinstance(r, dict):
             lkey, largs = callee, t["callee_args"]
         if lkey is not None and lkey in f.bodies:
-            effs = self.instantiate(self.summary(lkey), self.generic_map(lkey, largs))
+            effs = self.local_call_effects(lkey, largs)
             self._apply(effs, "CALL", {"callee": lkey}, t, bb, st, fork, emit, nexts, dl)
             return
         # --- unresolved: trait method on a type parameter / callable parameter
@@ -767,7 +812,7 @@ class Engine:
         # --- resolved to a non-local item
         kindr = r.get("kind", "")
         if kindr.startswith("ClosureOnceShim") or (rdef in f.bodies):
-            effs = self.instantiate(self.summary(rdef), self.generic_map(rdef, r["args"]))
+            effs = self.local_call_effects(rdef, r["args"])
             self._apply(effs, "CALL", {"callee": rdef}, t, bb, st, fork, emit, nexts, dl)
             return
         path = rdef
